@@ -290,6 +290,34 @@ def recoverLoop (findStart tok : IS → Out LoopRes) : Nat → IS → Byte → N
   | 0 => fun _ _ _ => .outOfFuel
   | fuel + 1 => recoverStep (recoverLoop findStart tok fuel) findStart tok
 
+/-! ### GetKeyword -/
+
+/-- a character `GetKeyword` accepts inside a keyword (`!` only as the first) -/
+def kwCharOk (c : Byte) (sz : Nat) : Bool :=
+  isUpper c || isDigit c || c = chUnderscore || c = chMinus || (c = chBang && sz = 1)
+
+/-- one iteration of `while( !( isspace( c ) || strchr( delims, c ) ) )` — `strchr` also matches the terminating NUL;
+an invalid character, a stream that is no longer good, and the normal end all leave through `in.putback( c )`.
+Returns the stream and the keyword (reversed) -/
+def getKwStep (rec : IS → Byte → Nat → List Byte → Nat → Out (IS × List Byte × Nat)) (delims : List Byte)
+    (s : IS) (c : Byte) (sz : Nat) (acc : List Byte) (steps : Nat) : Out (IS × List Byte × Nat) :=
+  if isSpace c || delims.contains c || c = 0 || !kwCharOk c sz || !s.good then .ok (s.putback c, acc, steps)
+  else rec (s.get).1 ((s.get).2.getD c) (sz + 1) (c :: acc) (steps + 1)
+
+def getKwLoop (delims : List Byte) : Nat → IS → Byte → Nat → List Byte → Nat → Out (IS × List Byte × Nat)
+  | 0 => fun _ _ _ _ _ => .outOfFuel
+  | fuel + 1 => getKwStep (getKwLoop delims fuel) delims
+
+/-- `GetKeyword( in, delims, err )`: `sev` unused, `len` = length of the keyword; the keyword itself in `getKeywordStr` -/
+def getKeywordFull (delims : List Byte) (fuel : Nat) (s : IS) : Out (IS × List Byte × Nat) :=
+  getKwLoop delims fuel (s.get).1 ((s.get).2.getD 0) 1 [] 1
+
+def getKeyword (delims : List Byte) (fuel : Nat) (s : IS) : Out LoopRes :=
+  match getKeywordFull delims fuel s with
+  | .ok (s', acc, st) => .ok ⟨s', 0, acc.length, st⟩
+  | .overflow i k => .overflow i k
+  | .outOfFuel => .outOfFuel
+
 /-! ### STEPfile::FindDataSection -/
 
 /-- after a `D`: `peek 'A'; get; peek 'T'; get; peek 'A'; get; in >> ws; peek ';'; get` — the stream and "found" -/
